@@ -1,6 +1,7 @@
 package main
 
 import (
+	"go/types"
 	"strings"
 
 	"golang.org/x/tools/go/ssa"
@@ -24,6 +25,8 @@ func runC09(p *Program, r *Report) {
 		pp := fnPkgPath(s.Fn)
 		return strings.HasPrefix(pp, acraMod+"/hmac") || strings.HasPrefix(pp, acraMod+"/cmd/acra-translator")
 	})
+	r.Rule("R09.7", "E3", 3, "a search literal is decoded as the client wrote it: a function that hands a literal to UpdateExpressionValue (decode, transform, re-encode) does not change that literal's type or bytes before the call - the value hashed must be the value an INSERT of the same literal stores")
+	ruleR097(p, r)
 	r.Rule("R09.4", "E3", 2, "index re-verification is wired: in both proxy factories the HMAC processor is subscribed both before and after the container detector (strip-and-remember, then verify after decryption)")
 	ruleR094(p, r)
 }
@@ -316,4 +319,81 @@ func ruleTransformOnce(p *Program, r *Report, rule string, replaceSpecs []string
 			r.Bad(rule, fnName(fn), "each bound value is transformed once", p.Pos(fn.Pos()), "no SetData on an indexed bound value found; the function has changed shape")
 		}
 	}
+}
+
+func ruleR097(p *Program, r *Report) {
+	n := 0
+	for _, pk := range []string{"hmac/decryptor/mysql", "hmac/decryptor/postgresql", "pseudonymization"} {
+		for _, fn := range p.SrcFuncs(pk) {
+			for _, c := range callsNamed(fn, "UpdateExpressionValue") {
+				n++
+				expr := c.Common().Args[1]
+				// objects the expression may denote: the interface value, or what a type assertion of the same source yields
+				var roots []ssa.Value
+				roots = append(roots, expr)
+				if mi, ok := expr.(*ssa.MakeInterface); ok {
+					roots = append(roots, mi.X)
+				}
+				src := expr
+				if u, ok := expr.(*ssa.UnOp); ok {
+					src = u.X // loaded from a field: other loads of that field denote the same node
+				}
+				bad := ""
+				for _, b := range fn.Blocks {
+					for _, in := range b.Instrs {
+						st, isSt := in.(*ssa.Store)
+						if !isSt {
+							continue
+						}
+						fa, isFa := st.Addr.(*ssa.FieldAddr)
+						if !isFa {
+							continue
+						}
+						// the stored-to object derives from the same node?
+						same := false
+						if er, ep := accessPath(expr); ep != "" {
+							for v := range backClosure(fa.X) {
+								if ta, ok := v.(*ssa.TypeAssert); ok {
+									if r2, p2 := accessPath(ta.X); r2 == er && p2 == ep {
+										same = true
+									}
+								}
+							}
+						}
+						for v := range backClosure(fa.X) {
+							for _, rt := range roots {
+								if v == rt {
+									same = true
+								}
+							}
+							if u, ok := v.(*ssa.UnOp); ok && u.X == src && src != expr {
+								same = true
+							}
+						}
+						if !same {
+							continue
+						}
+						// only SQLVal-like literal nodes matter (Type / Val fields)
+						stt := fa.X.Type().Underlying().(*types.Pointer).Elem().Underlying().(*types.Struct)
+						fname := stt.Field(fa.Field).Name()
+						if fname != "Type" && fname != "Val" {
+							continue
+						}
+						before := st.Block() == c.Block() && instrBefore(st, c) || st.Block() != c.Block() && reaches(st.Block(), c.Block(), nil)
+						if before {
+							bad = "sets ." + fname + " of the literal before it is decoded"
+						}
+					}
+				}
+				r.Check(bad == "", "R09.7", fnName(fn), "literal untouched before UpdateExpressionValue", p.Pos(c.Pos()), "no store to the literal's Type/Val precedes the call", bad+": the transformation is applied to other bytes than the client's literal denotes (a hex literal is hashed as its text, a string starting with 0x as decoded bytes), so the rewritten condition never matches what INSERT stored")
+			}
+		}
+	}
+	if n < 3 {
+		r.Bad("R09.7", "hmac/decryptor, pseudonymization", "UpdateExpressionValue call sites", "-", "fewer call sites found than confirmed by reading")
+	}
+}
+
+func init() {
+	mut("C09", "mysql literal retyped before decoding (original defect)", "hmac/decryptor/mysql/hashQuery.go", "			hexNumLiteral = rVal\n		}", "			hexNumLiteral = rVal\n			rVal.Type = sqlparser.HexNum\n		}", "R09.7", "literal untouched")
 }
